@@ -62,6 +62,9 @@ type Res struct {
 	Len   int                `json:"len"`
 	Dec   Meas               `json:"dec"`
 	Comp  map[string]Meas    `json:"comp"`
+	// CompClosed: CompileModule through a runtime whose CompilationCache was closed before (every 8th input):
+	// an error or a module, never a panic
+	CompClosed map[string]Meas `json:"comp_closed,omitempty"`
 	Run   map[string]*RunObs `json:"run,omitempty"`
 	NFunc int                `json:"nfunc"`
 	// EngDiff: first call on which interpreter and compiler disagree (results, or trap class); valid classes only
@@ -225,6 +228,26 @@ func childMode() {
 					return err
 				}, func() { r.Close(ctx) }
 			})
+			if in.ID%8 == 3 && len(bin) < 1<<16 {
+				say("#stage compile-closed-cache-" + eng)
+				if res.CompClosed == nil {
+					res.CompClosed = map[string]Meas{}
+				}
+				res.CompClosed[eng] = measure(len(bin), func() (func() error, func()) {
+					cache := wazero.NewCompilationCache()
+					r := wazero.NewRuntimeWithConfig(ctx, rtConfig(eng).WithCompilationCache(cache))
+					if in.ID%16 == 3 { // the engine exists already when the cache is closed
+						if cm, err := r.CompileModule(ctx, warm); err == nil {
+							cm.Close(ctx)
+						}
+					}
+					cache.Close(ctx)
+					return func() error {
+						_, err := r.CompileModule(ctx, bin)
+						return err
+					}, func() { r.Close(ctx) }
+				})
+			}
 			if res.Comp[eng].Ok && mod != nil && in.Class != "probe" {
 				say("#stage run-" + eng)
 				res.Run[eng] = runModule(ctx, eng, bin, mod)
